@@ -98,29 +98,30 @@ type Exec struct {
 	regionBreach string
 
 	// concurrency
-	threads    []*Thread
-	cur        *Thread
-	now        *term.T // virtual clock (BV64 ns); concrete in practice
-	nowC       int64
-	timers     []*Timer
-	nextTimer  int
-	schedSteps int
-	raceCheck  bool
-	acc        map[accKey]*accState
-	grant      *transition
-	syncs      map[string]*syncState
-	syncFields map[string]*Object
-	views      map[string]*Object
-	regions    map[*ssa.BasicBlock]*regionInfo
-	garbage    map[string]bool
-	knownRaces map[string]bool
-	netStream  []*term.T
-	netCuts    int
-	netDribble bool
-	netDgrams  [][]*term.T
-	netWrites  [][]*term.T
-	netClosed  int
-	tickers    map[*Object]*Timer
+	threads     []*Thread
+	cur         *Thread
+	now         *term.T // virtual clock (BV64 ns); concrete in practice
+	nowC        int64
+	timers      []*Timer
+	nextTimer   int
+	schedSteps  int
+	raceCheck   bool
+	acc         map[accKey]*accState
+	grant       *transition
+	syncs       map[string]*syncState
+	syncFields  map[string]*Object
+	views       map[string]*Object
+	regions     map[*ssa.BasicBlock]*regionInfo
+	garbage     map[string]bool
+	foreignInit map[*ssa.Package]bool
+	knownRaces  map[string]bool
+	netStream   []*term.T
+	netCuts     int
+	netDribble  bool
+	netDgrams   [][]*term.T
+	netWrites   [][]*term.T
+	netClosed   int
+	tickers     map[*Object]*Timer
 
 	// statistics (cumulative)
 	Stats Stats
@@ -445,6 +446,7 @@ func (e *Exec) resetPath(prefix []Decision) {
 	e.now = nil
 	e.tickers = map[*Object]*Timer{}
 	e.garbage = map[string]bool{}
+	e.foreignInit = nil
 	e.knownRaces = nil
 	e.netStream, e.netDgrams, e.netWrites, e.netCuts, e.netDribble, e.netClosed = nil, nil, nil, 0, false, 0
 	for _, d := range prefix {
